@@ -6,6 +6,7 @@
 package sniffing
 
 import (
+	"encoding/binary"
 	"errors"
 	"io/fs"
 
@@ -27,7 +28,18 @@ const (
 
 const (
 	QuicVersion1 = 0x00000001
+	QuicVersion2 = 0x6b3343cf
 )
+
+// quicInitialPacketType returns the long-header packet type code of an Initial
+// packet for the version carried in buf[1:5]: 0b00 in QUIC v1 and drafts,
+// 0b01 in QUIC v2 (RFC 9369 section 3.2).
+func quicInitialPacketType(buf []byte) byte {
+	if len(buf) >= 5 && binary.BigEndian.Uint32(buf[1:5]) == QuicVersion2 {
+		return 0b01
+	}
+	return QuicFlag_LongPacketType_Initial
+}
 
 // IsLikelyQuicInitialPacket checks if the buffer appears to be a QUIC Initial packet.
 // It validates the Long Header format and Initial packet type.
@@ -45,7 +57,7 @@ func IsLikelyQuicInitialPacket(buf []byte) bool {
 	if ((protectedFlag >> QuicFlag_HeaderForm) & 0b1) != QuicFlag_HeaderForm_LongHeader {
 		return false
 	}
-	if ((protectedFlag >> QuicFlag_LongPacketType) & 0b11) != QuicFlag_LongPacketType_Initial {
+	if ((protectedFlag >> QuicFlag_LongPacketType) & 0b11) != quicInitialPacketType(buf) {
 		return false
 	}
 
@@ -109,7 +121,7 @@ func sniffQuicBlock(s *Sniffer, cryptos []*quicutils.CryptoFrameOffset, buf []by
 	if ((protectedFlag >> QuicFlag_HeaderForm) & 0b11) != QuicFlag_HeaderForm_LongHeader {
 		return cryptos, nil, ErrNotApplicable
 	}
-	if ((protectedFlag >> QuicFlag_LongPacketType) & 0b11) != QuicFlag_LongPacketType_Initial {
+	if ((protectedFlag >> QuicFlag_LongPacketType) & 0b11) != quicInitialPacketType(buf) {
 		return cryptos, nil, ErrNotApplicable
 	}
 
